@@ -81,6 +81,16 @@ fixed("C08", "da4608a", ["c08:framing-accepted:missing-cr:chunk-size-line", "c08
 fixed("C08", "d6eaa4d", ["c08:framing-accepted:missing-cr:trailer-line"],
       "bare LF inside a trailer line accepted ('A: 1\\nB: 2' delivered as one trailer)")
 
+# ---- executors / deadlines
+fixed("C19", "8a372c3", ["c19:taskpool:capacity-not-recovered"],
+      "taskpool.New(8,1024) after a burst of 2000 short tasks: a barrier of 7 mutually waiting tasks never completes (the dispatcher's failed fork keeps its slot)")
+fixed("C19", "c847f18", ["c19:taskpool:custom-caller:bound-exceeded"],
+      "taskpool.New(n, q, caller): the wrapper decrements the running counter after every task; after some tasks 100 blocking tasks run at once on a pool of 8")
+fixed("C19", "d65a45b", ["c19:taskpool:queued-tasks-dropped-by-stop"],
+      "taskpool.New(2,1024): 100 Go() calls returned, Stop(): none of the queued tasks ever runs")
+fixed("C16", "d32f6c7", ["c16:http-keepalive:blocking:never-closed"],
+      "IOModBlocking, KeepaliveTime 300 ms, idle keep-alive connection: OnClose(i/o timeout) fires but the socket is never closed")
+
 # ---- WebSocket
 fixed("C12", "ffd52c5", ["c12:recv:empty-message-not-delivered", "c12:loop:empty-message-not-delivered"],
       "empty text/binary message (frames 81 00 / 82 80 k k k k): OnMessage never called")
